@@ -146,11 +146,14 @@ class _PrivateStream:
 
 
 class _NpWithRandom:
-    def __init__(self, model):
+    """the module's `np` with `random` replaced by the model; everything else goes to what the module had before (the symbolic-aware NumPy
+    proxy of symx/shim.py, so that np.array / np.asarray on payloads stay in the symbolic domain here as well)"""
+    def __init__(self, model, base=None):
         self.random = model
+        self._base = base if base is not None else np
 
     def __getattr__(self, name):
-        return getattr(np, name)
+        return getattr(self._base, name)
 
 
 def install(model):
@@ -161,7 +164,7 @@ def install(model):
     for modname in ("cola.backends.np_fns", "cola.linalg.eig.lobpcg"):
         m = importlib.import_module(modname)
         saved[modname] = (m, m.__dict__.get("np"))
-        m.np = _NpWithRandom(model)
+        m.np = _NpWithRandom(model, m.__dict__.get("np"))
     saved["normal"] = np_fns.normal
     np_fns.normal = model.normal
     return saved
